@@ -5,3 +5,4 @@ import Props.C18
 #print axioms C18.powf_total
 #print axioms C18.expf_total
 #print axioms C18.curve_total
+#print axioms C18.cbrtf_accurate
